@@ -24,6 +24,8 @@ EXTENDS Integers, Sequences, FiniteSets, TLC, Json
 
 CONSTANTS Rich,          \* FALSE: quick class product, TRUE: full product
           StrictIdText,  \* PeerID.UnmarshalText surfaces decode errors and checks 32 bytes (F17 repaired)
+          KeepParams,    \* FALSE: ParsePublicKey drops the AlgorithmIdentifier parameters, a key is (OID, bytes).  TRUE: parse state
+                         \* leaks into re-marshal (seeded defect: parameters kept and written back; Keys_params.cfg must fail)
           LengthFastPath \* FALSE: lengths as encoding/asn1 computes them.  TRUE: a hand-rolled encoder whose outer
                          \* SEQUENCE length assumes a 2-byte BIT STRING header (seeded defect; Keys_fastpath.cfg must fail)
 
@@ -135,6 +137,23 @@ EqualKeys(k1, k2) == k1.oid = k2.oid /\ k1.body = k2.body /\ k1.fill = k2.fill
 Fingerprint(key) == Marshal(key)
 
 KeyRoundTrips(key) == Parse(Marshal(key)) = AsParsed(key)
+
+\* ---- parse-first direction: what a wire form turns into, and what that marshals to
+\* wire forms of one (OID, body): every form of Forms, a small junk parameter value, the same body under
+\* another OID and another body under the same OID (so that Equal has several classes)
+WireForms == <<"canonical", "params-null", "params-oid", "params-junk", "unused-bits", "nonminimal-length", "trailing-data",
+               "truncated", "indefinite-length", "bitstring-unused-gt7", "other-body", "other-oid">>
+ParamForms == {"params-null", "params-oid", "params-junk"}
+WireDER(f, key) ==
+    CASE f = "other-body" -> DER("canonical", key.oid, key.body, "other")
+      [] f = "other-oid" -> DER("canonical", IF key.oid = "ed448" THEN "ed25519" ELSE "ed448", key.body, key.fill)
+      [] f = "params-junk" -> DER("params-oid", key.oid, key.body, key.fill)
+      [] OTHER -> DER(f, key.oid, key.body, key.fill)
+\* the parsed key, with the state ParsePublicKey keeps besides (OID, bytes)
+ParseW(f, key) == LET p == Parse(WireDER(f, key))
+                  IN IF IsErr(p) THEN p ELSE p @@ [params |-> IF KeepParams /\ f \in ParamForms THEN f ELSE "absent"]
+\* MarshalPublicKey of a parsed key: canonical, unless parse state is written back
+MarshalW(p) == [Marshal([oid |-> p.oid, body |-> p.body, fill |-> p.fill]) EXCEPT !.form = IF p.params = "absent" THEN "canonical" ELSE p.params]
 \* recorded finding: valid OIDs whose arcs exceed int32 marshal but do not parse back
 KF_BigArc(key) == ValidOID(OIDs[key.oid]) /\ ~FitsParser(OIDs[key.oid])
 Neighbours(key) == {key} \cup {Key(o, key.body, key.fill) : o \in {"ed25519", "ed448", "first0", "arc2p31"}}
@@ -238,9 +257,14 @@ PairCases == UNION {{[kind |-> "pair", k1 |-> k, k2 |-> n] : n \in Neighbours(k)
 DerCases == {[kind |-> "der", form |-> f, key |-> k] : f \in Forms \ {"canonical"},
                k \in {Key(o, l, "mixed") : o \in {"ed25519", "first2_999", "arc2p31", "long20", "long130"},
                                             l \in (IF Rich THEN {0, 1, 31, 32, 33, 64, 126, 127, 128, 255, 256, 1312} ELSE {0, 1, 32, 127, 256})}}
+WireCases == {[kind |-> "wires", key |-> Key(o, l, "mixed"), std |-> "none"] :
+                o \in (IF Rich THEN {"ed25519", "ed448", "first2_999", "arc128", "long20", "long130"} ELSE {"ed25519", "first2_999", "long130"}),
+                l \in (IF Rich THEN {0, 1, 31, 32, 33, 127, 128, 256, 1312} ELSE {0, 1, 32, 127, 256})}
+             \* standard SubjectPublicKeyInfos from crypto/x509 (RSA: NULL parameters, ECDSA: curve OID parameters)
+             \cup {[kind |-> "wires", key |-> Key("ed25519", 32, "mixed"), std |-> x] : x \in {"rsa", "ecdsa-p256", "ed25519"}}
 IdTextCases == {[kind |-> "idtext", id |-> i, tc |-> tc] : i \in (IF Rich THEN IdNames ELSE {"zero", "ones", "mixed", "last15"}), tc \in TextClasses}
 IdPairCases == {[kind |-> "idpair", a |-> x, b |-> y] : x \in IdNames, y \in IdNames}
-Cases == KeyCases \cup PairCases \cup DerCases \cup IdTextCases \cup IdPairCases
+Cases == KeyCases \cup PairCases \cup DerCases \cup WireCases \cup IdTextCases \cup IdPairCases
 
 VARIABLE c
 Init == c \in Cases
@@ -262,6 +286,16 @@ NonCanonicalLaw ==
     c.kind = "der" => LET p == Parse(DER(c.form, c.key.oid, c.key.body, c.key.fill))
                       IN IsErr(p) \/ LET k2 == [oid |-> p.oid, body |-> p.body, fill |-> p.fill]
                                      IN Parse(Marshal(k2)) = p /\ Fingerprint(k2) = Marshal(k2)
+\* ONE canonical encoding, parse-first: every accepted wire form yields a key whose marshalling is idempotent, and
+\* two accepted wire forms whose keys EqualPublicKeys reports equal marshal identically (hence one fingerprint);
+\* conversely equal encodings come from equal keys
+WireCanonicalLaw ==
+    c.kind = "wires" =>
+      \A i \in 1..Len(WireForms) : \A j \in 1..Len(WireForms) :
+         LET p1 == ParseW(WireForms[i], c.key) p2 == ParseW(WireForms[j], c.key) IN
+           (IsErr(p1) \/ IsErr(p2)) \/
+             /\ EqualKeys(p1, p2) <=> MarshalW(p1) = MarshalW(p2)
+             /\ LET again == Parse(MarshalW(p1)) IN ~IsErr(again) /\ Marshal([oid |-> again.oid, body |-> again.body, fill |-> again.fill]) = MarshalW(p1)
 \* PeerID text
 IdRoundTripLaw == c.kind = "idpair" => Unmarshal(Encode(Ids[c.a])) = [k |-> "ID", id |-> Ids[c.a]]
 OrderPreservingLaw == c.kind = "idpair" => LexCmp(Encode(Ids[c.a]), Encode(Ids[c.b])) = LexCmp(Ids[c.a], Ids[c.b])
@@ -276,6 +310,8 @@ ModelSays ==
       [] c.kind = "pair" -> [valid |-> ValidOID(OIDs[c.k1.oid]) /\ ValidOID(OIDs[c.k2.oid]), equal |-> EqualKeys(c.k1, c.k2),
                              arcs1 |-> OIDs[c.k1.oid], arcs2 |-> OIDs[c.k2.oid]]
       [] c.kind = "der" -> [accept |-> ~IsErr(Parse(DER(c.form, c.key.oid, c.key.body, c.key.fill))), arcs |-> OIDs[c.key.oid]]
+      [] c.kind = "wires" -> [arcs |-> OIDs[c.key.oid], forms |-> WireForms,
+                              accepts |-> [i \in 1..Len(WireForms) |-> ~IsErr(ParseW(WireForms[i], c.key))]]
       [] c.kind = "idtext" -> [accept |-> ~IsErr(Unmarshal(TextOf(Ids[c.id], c.tc))), text |-> TextOf(Ids[c.id], c.tc), id |-> Ids[c.id]]
       [] c.kind = "idpair" -> [a |-> Ids[c.a], b |-> Ids[c.b], ta |-> Encode(Ids[c.a]), cmp |-> LexCmp(Ids[c.a], Ids[c.b])]
 Dump == PrintT(ToJson(<<"KCASE", c, ModelSays>>))
